@@ -171,6 +171,9 @@ func VerifC09Contains() {
 		var np *int
 		for _, e := range []string{"a contains nil", "a contains nope", "a contains p", "a contains a[1]", "a contains q"} {
 			nd.Assert(c09Bool(e, map[string]any{"a": []any{x, nil}, "p": nil, "q": np}), "array-with-nil-contains-nil")
+			// a nil pointer held as an element is nil too, in a generic and in a typed array
+			nd.Assert(c09Bool(e, map[string]any{"a": []any{x, np}, "p": nil, "q": np}), "array-with-nil-pointer-contains-nil")
+			nd.Assert(c09Bool(e, map[string]any{"a": []*int{&x, nil}, "p": nil, "q": np}), "typed-array-with-nil-pointer-contains-nil")
 			nd.Assert(!c09Bool(e, map[string]any{"a": []any{x, "s"}, "p": nil, "q": np}) || e == "a contains a[1]", "array-without-nil-does-not-contain-nil")
 		}
 	case 2: // map key
